@@ -64,12 +64,18 @@ def forward_tangent(prog, x, v):
     return a.UTPM((y1.data - y0.data)[D:].copy()), a.UTPM(y0.data[:D].copy())
 
 
+LAST_MAGNITUDE = 0.0
 def adjoint_identity(prog, x, ybar_seed_rng, v, cg=None, fx=None, fy=None, pattern='dense'):
     """returns (max abs defect of <xbar,v> - <ybar,F'(x)v>, scale, xbar, ybar) using the recorded graph cg"""
     a = A()
     if cg is None: cg, fx, fy = record(prog, x)
     cg.pushforward([x])
     y = cg.dependentFunctionList[0].x
+    global LAST_MAGNITUDE
+    LAST_MAGNITUDE = 0.0
+    for f_ in cg.functionList:
+        d_ = getattr(getattr(f_, 'x', None), 'data', None)
+        if d_ is not None and numpy.size(d_): LAST_MAGNITUDE = max(LAST_MAGNITUDE, float(numpy.nanmax(numpy.abs(d_))))
     ybar = rand_like(y, ybar_seed_rng, pattern)
     ybar_copy = ybar.data.copy()
     cg.pullback([ybar])
@@ -105,6 +111,10 @@ def run_adjoint_corpus(programs, configs, rng, tol=1e-8, patterns=('dense',)):
             try:
                 err, scale, xbar, ybar, lr, seed_ok = adjoint_identity(p, x, rng, v, cg, fx, fy, pattern if pattern != 'special-point' else 'dense')
                 if not numpy.isfinite(err): continue
+                if LAST_MAGNITUDE > 1e6:
+                    # intermediate values beyond 1e6 (e.g. ((sum x)^2)^4 fed into sin): float64 evaluation of the oracle itself is ill-conditioned
+                    # (assumption A6 "floats as reals" does not hold there); not a verdict
+                    o['status'] = 'ill-conditioned'; o['detail'] = 'max |intermediate| = %.3g' % LAST_MAGNITUDE; out.append(o); continue
             except Exception as e:
                 msg = str(e)
                 missing = ("has no attribute 'pb_" in msg)
